@@ -190,7 +190,12 @@ class Model():
         else:
             if asset.name in self.asset_names:
                 if allow_duplicate_names:
-                    asset.name = asset.name + ':' + str(asset.id)
+                    # Keep appending the id until the name is unique, the
+                    # renamed name may already be taken as well.
+                    unique_name = asset.name + ':' + str(asset.id)
+                    while unique_name in self.asset_names:
+                        unique_name = unique_name + ':' + str(asset.id)
+                    asset.name = unique_name
                 else:
                     raise ValueError(
                         f'Asset name {asset.name} is a duplicate'
